@@ -1,0 +1,39 @@
+//go:build verif
+
+// Machine-checked contracts (gowp, see /verif/DESIGN.md). Comment-only file:
+// nothing here is compiled into the package.
+
+package launch
+
+// ---- C35: access control decisions follow the documented precedence ------------
+//
+// The table is the abstract map view of acl.m: mhas(acl.m, u) / mval(acl.m, u, ..)
+// is the permission set of user u (a Go map scope -> perm).
+//   level 1: table(user)[scope]           level 2: table(user)[_default]
+//   level 3: table(_default)[scope]       level 4: table(_default)[_default]
+
+//@ spec func tblHas(m map[ACLScope]ACLPerm, s ACLScope) bool
+//@ spec func tblVal(m map[ACLScope]ACLPerm, s ACLScope) int
+
+//@ func (*ACL).allow
+//@   prop C35
+//@   requires acl.m != nil
+//@   ensures [user-scope] mhas(acl.m, user) && has(mval(acl.m, user, map[ACLScope]ACLPerm), scope) ==> assigned == mval(acl.m, user, map[ACLScope]ACLPerm)[scope] && allow == (assigned >= required)
+//@   ensures [user-default] mhas(acl.m, user) && !has(mval(acl.m, user, map[ACLScope]ACLPerm), scope) && has(mval(acl.m, user, map[ACLScope]ACLPerm), "_default") ==> assigned == mval(acl.m, user, map[ACLScope]ACLPerm)["_default"] && allow == (assigned >= required)
+//@   ensures [none] !mhas(acl.m, user) || (!has(mval(acl.m, user, map[ACLScope]ACLPerm), scope) && !has(mval(acl.m, user, map[ACLScope]ACLPerm), "_default")) ==> assigned == 0 && !allow
+
+// The decision: superuser first, then the four levels in order; an explicit
+// prohibit (1) always denies because required >= 2 for every valid request
+// other than prohibit itself, which is refused outright.
+//@ func (*ACL).Allow
+//@   prop C35
+//@   requires acl.m != nil
+//@   requires required >= 1
+//@   ensures [prohibit-request] required == 1 ==> r0 == 1 && !r1
+//@   ensures [superuser] required != 1 && user == acl.superuser ==> r0 == 79 && r1
+//@   ensures [level1] required != 1 && user != acl.superuser && mhas(acl.m, user) && has(mval(acl.m, user, map[ACLScope]ACLPerm), scope) && mval(acl.m, user, map[ACLScope]ACLPerm)[scope] >= 1 ==> r0 == mval(acl.m, user, map[ACLScope]ACLPerm)[scope] && r1 == (r0 >= required)
+//@   ensures [level2] required != 1 && user != acl.superuser && mhas(acl.m, user) && !has(mval(acl.m, user, map[ACLScope]ACLPerm), scope) && has(mval(acl.m, user, map[ACLScope]ACLPerm), "_default") && mval(acl.m, user, map[ACLScope]ACLPerm)["_default"] >= 1 ==> r0 == mval(acl.m, user, map[ACLScope]ACLPerm)["_default"] && r1 == (r0 >= required)
+//@   ensures [level3] required != 1 && user != acl.superuser && (!mhas(acl.m, user) || (!has(mval(acl.m, user, map[ACLScope]ACLPerm), scope) && !has(mval(acl.m, user, map[ACLScope]ACLPerm), "_default"))) && mhas(acl.m, "_default") && has(mval(acl.m, "_default", map[ACLScope]ACLPerm), scope) ==> r0 == mval(acl.m, "_default", map[ACLScope]ACLPerm)[scope] && r1 == (r0 >= required)
+//@   ensures [level4] required != 1 && user != acl.superuser && (!mhas(acl.m, user) || (!has(mval(acl.m, user, map[ACLScope]ACLPerm), scope) && !has(mval(acl.m, user, map[ACLScope]ACLPerm), "_default"))) && mhas(acl.m, "_default") && !has(mval(acl.m, "_default", map[ACLScope]ACLPerm), scope) && has(mval(acl.m, "_default", map[ACLScope]ACLPerm), "_default") ==> r0 == mval(acl.m, "_default", map[ACLScope]ACLPerm)["_default"] && r1 == (r0 >= required)
+//@   ensures [nothing] required != 1 && user != acl.superuser && (!mhas(acl.m, user) || (!has(mval(acl.m, user, map[ACLScope]ACLPerm), scope) && !has(mval(acl.m, user, map[ACLScope]ACLPerm), "_default"))) && (!mhas(acl.m, "_default") || (!has(mval(acl.m, "_default", map[ACLScope]ACLPerm), scope) && !has(mval(acl.m, "_default", map[ACLScope]ACLPerm), "_default"))) ==> r0 == 0 && !r1
+//@   ensures [explicit-prohibit-denies] required >= 2 && user != acl.superuser && r0 == 1 ==> !r1
